@@ -28,6 +28,7 @@ import (
 	"github.com/Trendyol/go-dcp/couchbase"
 	"github.com/Trendyol/go-dcp/helpers"
 	"github.com/Trendyol/go-dcp/membership"
+	"github.com/Trendyol/go-dcp/models"
 	"github.com/Trendyol/go-dcp/servicediscovery"
 	"github.com/asaskevich/EventBus"
 	"github.com/prometheus/client_golang/prometheus"
@@ -835,6 +836,171 @@ func TestC10_Relay(t *testing.T) {
 			violation(rt, "C10", "c10relay", sc, "%s", d)
 		}
 		record("C10", sc, rep, "relay_cases")
+	})
+}
+
+// ---------- (d) the leader files a follower under the join time the follower states: the real Register RPC ----------
+// Followers reach the leader through the real RPC server / client pair (net/rpc over TCP on localhost; the connection the
+// leader dials back to a follower ends at the leader's own port, which is enough for a registration). Registrations arrive
+// in any order and some followers register again (what a follower does after one failed ping of the leader): the leader's
+// list - from which its monitor numbers the followers 2, 3, .. - stays in join order.
+
+type c10Reg struct {
+	Join    []int64 `json:"join"`    // join time of follower i (distinct)
+	Arrive  []int   `json:"arrive"`  // order in which the followers' first registrations arrive (a permutation)
+	Again   []int   `json:"again"`   // followers registering once more afterwards, in this order
+	GapUs   int     `json:"gap_us"`  // pause between registrations
+	Reorder bool    `json:"reorder"` // derived: the arrival order differs from the join order
+}
+
+type c10RegEnv struct {
+	sd     servicediscovery.ServiceDiscovery
+	port   int
+	leader *models.Identity
+}
+
+var (
+	c10RegOnce sync.Once
+	c10RegE    *c10RegEnv
+)
+
+func c10RegGet() *c10RegEnv {
+	c10RegOnce.Do(func() {
+		for try := 0; try < 20 && c10RegE == nil; try++ {
+			func() {
+				defer func() { _ = recover() }() // the port was taken in the meantime: Listen panics, try another one
+				e := &c10RegEnv{port: freePort(), leader: &models.Identity{IP: "127.0.0.1", Name: "leader", ClusterJoinTime: 1}}
+				e.sd = servicediscovery.NewServiceDiscovery(laConfig(), EventBus.New())
+				servicediscovery.NewServer(e.port, e.leader, e.sd).Listen()
+				c10RegE = e
+			}()
+		}
+	})
+	return c10RegE
+}
+
+func c10ExecReg(sc c10Reg) string {
+	e := c10RegGet()
+	if e == nil {
+		return "HARNESS: no RPC server"
+	}
+	e.sd.RemoveAll()
+	defer e.sd.RemoveAll()
+	name := func(i int) string { return fmt.Sprintf("f%d", i) }
+	var clients []servicediscovery.Client
+	defer func() {
+		for _, c := range clients {
+			_ = c.Close()
+		}
+	}()
+	register := func(i int) string {
+		id := &models.Identity{IP: "127.0.0.1", Name: name(i), ClusterJoinTime: sc.Join[i]}
+		c, err := servicediscovery.NewClient(e.port, id, e.leader)
+		if err != nil {
+			return "HARNESS: follower cannot connect: " + err.Error()
+		}
+		clients = append(clients, c)
+		if err := c.Register(); err != nil {
+			return "HARNESS: Register RPC failed: " + err.Error()
+		}
+		if sc.GapUs > 0 {
+			time.Sleep(time.Duration(sc.GapUs) * time.Microsecond)
+		}
+		return ""
+	}
+	want := make([]int, len(sc.Join))
+	for i := range want {
+		want[i] = i
+	}
+	sort.Slice(want, func(a, b int) bool { return sc.Join[want[a]] < sc.Join[want[b]] })
+	check := func(when string) string {
+		got := e.sd.GetAll()
+		var w []string
+		for _, i := range want {
+			w = append(w, name(i))
+		}
+		if fmt.Sprint(got) != fmt.Sprint(w) {
+			return fmt.Sprintf("%s the leader lists its followers as %v; in join order (join times %v) they are %v - the monitor numbers them 2.. in list order", when, got, sc.Join, w)
+		}
+		return ""
+	}
+	for _, i := range sc.Arrive {
+		if d := register(i); d != "" {
+			return d
+		}
+	}
+	if d := check("after the registrations arrived in the order " + fmt.Sprint(sc.Arrive)); d != "" {
+		return d
+	}
+	for _, i := range sc.Again {
+		if d := register(i); d != "" {
+			return d
+		}
+		if d := check(fmt.Sprintf("after follower f%d registered again", i)); d != "" {
+			return d
+		}
+	}
+	return ""
+}
+
+func TestC10_RegisterRPC(t *testing.T) {
+	rapid.Check(t, func(rt *rapid.T) {
+		k := rapid.IntRange(1, 6).Draw(rt, "followers")
+		sc := c10Reg{GapUs: rapid.SampledFrom([]int{0, 0, 200, 1500}).Draw(rt, "gap")}
+		base := rapid.Int64Range(2, 1_800_000_000_000_000_000).Draw(rt, "base")
+		seen := map[int64]bool{}
+		for i := 0; i < k; i++ {
+			j := base + rapid.Int64Range(0, 5_000_000_000).Draw(rt, "dj")
+			for seen[j] {
+				j++
+			}
+			seen[j] = true
+			sc.Join = append(sc.Join, j)
+		}
+		sc.Arrive = rapid.Permutation(func() []int {
+			v := make([]int, k)
+			for i := range v {
+				v[i] = i
+			}
+			return v
+		}()).Draw(rt, "arrive")
+		sc.Again = rapid.SliceOfN(rapid.IntRange(0, k-1), 0, 3).Draw(rt, "again")
+		for n := 1; n < k; n++ {
+			if sc.Join[sc.Arrive[n-1]] > sc.Join[sc.Arrive[n]] {
+				sc.Reorder = true
+			}
+		}
+		journal("C10", "c10reg", sc)
+		d := c10ExecReg(sc)
+		journalDone()
+		if strings.HasPrefix(d, "HARNESS") {
+			rt.Skip(d)
+		}
+		if d != "" {
+			violation(rt, "C10", "c10reg", sc, "%s", d)
+		}
+		labels := []string{"register_rpc_cases"}
+		if sc.Reorder {
+			labels = append(labels, "registrations_out_of_join_order")
+		}
+		if len(sc.Again) > 0 && k > 1 {
+			labels = append(labels, "follower_registered_again")
+		}
+		record("C10", sc, k > 1 && (sc.Reorder || len(sc.Again) > 0), labels...)
+	})
+}
+
+func init() {
+	registerReplay("c10reg", func(raw json.RawMessage) string {
+		var sc c10Reg
+		if err := json.Unmarshal(raw, &sc); err != nil {
+			return err.Error()
+		}
+		d := c10ExecReg(sc)
+		if strings.HasPrefix(d, "HARNESS") {
+			return ""
+		}
+		return d
 	})
 }
 
